@@ -27,7 +27,8 @@ class CFile:
         with open(path, "rb") as f:
             self.src = f.read()
         self.sha = hashlib.sha256(self.src).hexdigest()[:16]
-        cmd = ["clang", "-fopenmp", "-fsyntax-only", "-Xclang", "-ast-dump=json",
+        # -DNDEBUG and -fopenmp: the flags setup.py / sysconfig actually compile the extension with
+        cmd = ["clang", "-fopenmp", "-DNDEBUG", "-fsyntax-only", "-Xclang", "-ast-dump=json",
                "-I" + os.path.dirname(path), "-I" + os.path.join(VERIF, "stubs"), path]
         p = subprocess.run(cmd, capture_output=True)
         if p.returncode != 0:
